@@ -107,6 +107,8 @@ def gen_cases(rng, tier):
             if rng.random() < 0.3:
                 lost = rng.randrange(len(parts) + 1)
             c = {'req': req, 'host': host, 'port': port, 'chunks': [p.hex() for p in parts], 'lost': lost}
+            if req == 'CONNECT' and rng.random() < 0.2:
+                c['falsy_app'] = True       # the application's protocol object is falsy (it is a sized container, empty when built)
             if len(parts) > 2 and rng.random() < 0.3:
                 # some reads arrive while the application is still inside dataReceived for the previous one
                 c['nested'] = sorted(rng.sample(range(1, len(parts)), rng.randint(1, min(3, len(parts) - 1))))
@@ -134,7 +136,7 @@ def ops_of(c):
 
 
 def run_impl(c):
-    im = socksh.Impl(c['req'], c['host'], c['port'])
+    im = socksh.Impl(c['req'], c['host'], c['port'], falsy_app=bool(c.get('falsy_app')))
     im.reenter_from_done = bool(c.get('from_done'))
     outs = []
     ops = ops_of(c)
@@ -226,6 +228,12 @@ def run_cases(cases, drv, tier):
                 if x != '-':
                     mouts += x.split(';')
             model = truncate_at_exc(mouts)
+            if c.get('falsy_app'):
+                # whether a *falsy* application protocol is told that the connection went is not part of the property (the
+                # implementation asks `if self._sender:`; the model tells every application): left out on both sides
+                im = [x for x in im if x != 'applost']
+                model = [x for x in model if x != 'applost']
+                obs_i = socksh.observe(im)
             if c.get('from_done'):
                 # a read delivered from inside the connect() callback reaches the application together with what was still
                 # buffered: the bytes and their order are compared, not how many dataReceived calls carry them
@@ -239,7 +247,7 @@ def run_cases(cases, drv, tier):
                     spec['outcome'] = 'fail_SocksError:-:conn'
                     spec['closed'] = True
                 elif spec['outcome'] == 'connected':
-                    spec['applost'] = True
+                    spec['applost'] = not c.get('falsy_app')
                     spec['closed'] = True
             # a caller that asks after everything is told the outcome that was announced (and nothing while there is none)
             first = [o for o in im if o.startswith('done ')][:1]
@@ -253,7 +261,7 @@ def run_cases(cases, drv, tier):
         t = bytes.fromhex(total)
         complete = len(t) >= 10
         tags = [c['req'], 'chunks=%s' % ('1' if len(c['chunks']) == 1 else 'bytes' if all(len(x) == 2 for x in c['chunks']) else 'n'),
-                'lost' if c['lost'] is not None else 'nolost', 'nested-reads' if c.get('nested') else 'sequential-reads', 'outcome=' + str(obs_i['outcome']).split('_')[0],
+                'lost' if c['lost'] is not None else 'nolost', 'nested-reads' if c.get('nested') else 'sequential-reads', 'falsy-app' if c.get('falsy_app') else 'ordinary-app', 'outcome=' + str(obs_i['outcome']).split('_')[0],
                 ('H' + (':' + why if why else '')) if h else 'outsideH:' + why]
         res.append(Result(c, im if drv is None else {'trace': im, 'obs': obs_i}, model, spec, corr_ok=corr_ok, prop_ok=prop_ok,
                           in_h=h, nontrivial=complete, tags=tags))
